@@ -391,6 +391,41 @@ def shapes(tier):
     return out
 
 
+ARM64_PATCHES = {"mov", "two", "label", "jcc_tmp", "ret", "icall", "byte", "quad", "selfloop", "trail_label", "trail_label_data",
+                 "decline", "rawbytes", "string"}
+
+
+def arm64_shapes(tier):
+    """The x86-64 scenarios whose patches have an ARM64 rendering, on an ARM64 ELF module (fixed-width instructions:
+    lengths are constants, gaps, data sizes, addresses and displacements stay symbolic)."""
+    out = []
+    for sid, spec in shapes("quick"):
+        if sid.startswith(("newfunc/", "leadgap/")) and tier == "quick":
+            continue
+        ok = True
+        for m in spec.get("mods", []):
+            pn = m.get("patch")
+            if pn is None:
+                continue
+            if pn not in ARM64_PATCHES and not pn.startswith(("jmp:", "call:", "dq:")):
+                ok = False
+        if not ok or m_has(spec, "insert_function"):
+            continue
+        # s0, s1, ... are register names on ARM64 ('bl s2' would name a register): the labels are renamed lab0, lab1, ...
+        import json
+        import re
+        a = json.loads(re.sub(r"\bs(\d+[a-z]?)\b", r"lab\1", json.dumps(spec)))
+        a["isa"] = "arm64"
+        out.append(("arm64/" + re.sub(r"\bs(\d+[a-z]?)\b", r"lab\1", sid), a))
+    if tier == "quick":
+        out = [x for i, x in enumerate(out) if i % 3 == 0 or x[0].startswith(("arm64/callgraph", "arm64/mixed", "arm64/nolabel"))]
+    return out
+
+
+def m_has(spec, op):
+    return any(m.get("op") == op for m in spec.get("mods", []))
+
+
 def cfi_layout(kind="one"):
     """CFI procedures over the text layout.
     one:  a single procedure over b0..b2 with state changes inside b1
